@@ -218,6 +218,13 @@ func strip(v ssa.Value) ssa.Value {
 			} else {
 				return v
 			}
+		case *ssa.UnOp:
+			// an immutable package-level variable initialised with a constant is that constant
+			if k, ok := immutableInit(x).(*ssa.Const); ok {
+				v = k
+			} else {
+				return v
+			}
 		default:
 			return v
 		}
@@ -271,6 +278,17 @@ func callOf(v ssa.Value) (*ssa.Call, int) {
 // fieldOfLoad: if v is a load `*(&x.f)` or a value-struct field `x.f` returns the
 // field and the base value.
 func fieldOfLoad(v ssa.Value) (*types.Var, ssa.Value) {
+	for i := 0; i < 3; i++ {
+		src := setOnceSource(v)
+		if src == nil {
+			break
+		}
+		v = src
+	}
+	return fieldOfLoadRaw(v)
+}
+
+func fieldOfLoadRaw(v ssa.Value) (*types.Var, ssa.Value) {
 	switch x := v.(type) {
 	case *ssa.UnOp:
 		if x.Op == token.MUL {
@@ -313,8 +331,7 @@ func namedOf(t types.Type) *types.Named {
 
 // fieldIs reports whether fv is field `name` of named struct pkg.typ.
 func fieldAddrIs(fa *ssa.FieldAddr, pkg, typ, name string) bool {
-	n := namedOf(fa.X.Type())
-	if n == nil || n.Obj().Pkg() == nil || n.Obj().Pkg().Path() != pkg || (n.Obj().Name() != typ && n.Obj().Name() != curTypeName(pkg, typ)) {
+	if !typeIs(namedOf(fa.X.Type()), pkg, typ) {
 		return false
 	}
 	fv := fieldVar(fa.X.Type(), fa.Field)
@@ -324,6 +341,13 @@ func fieldAddrIs(fa *ssa.FieldAddr, pkg, typ, name string) bool {
 // loadsField reports whether v (after strip) is a load of field pkg.typ.name.
 func loadsField(v ssa.Value, pkg, typ, name string) bool {
 	v = strip(v)
+	for i := 0; i < 3; i++ {
+		src := setOnceSource(v)
+		if src == nil {
+			break
+		}
+		v = strip(src)
+	}
 	switch x := v.(type) {
 	case *ssa.UnOp:
 		if x.Op == token.MUL {
@@ -332,8 +356,7 @@ func loadsField(v ssa.Value, pkg, typ, name string) bool {
 			}
 		}
 	case *ssa.Field:
-		n := namedOf(x.X.Type())
-		if n == nil || n.Obj().Pkg() == nil || n.Obj().Pkg().Path() != pkg || (n.Obj().Name() != typ && n.Obj().Name() != curTypeName(pkg, typ)) {
+		if !typeIs(namedOf(x.X.Type()), pkg, typ) {
 			return false
 		}
 		fv := fieldVar(x.X.Type(), x.Field)
